@@ -33,6 +33,8 @@ ASSUMPTIONS = [
 
 STRINGS = ["", "x", "12", "1e3", "0x10", "true", "null", "a\"b", "back\\slash", "tab\there", "new\nline", "vt\x0bvt", "ff\x0c", "cr\r", "äöü€", "\U0001F600",
            "{not json", "[1,2", "'single'", "a/b", "\x01\x02", " lead", "trail ", "\"", "\\", "\\\"", "\\n", "%s", "</scxml>"]
+# a backslash in front of every character that means something after a backslash in JSON (and a few that do not)
+STRINGS += ["p\\" + c + "q" for c in "\"\\/bfnrtuvx0U "] + ["C:\\users\\new", "\\u0041", "\\u00e4\\u", "tail\\"]
 
 
 def gen_payload(r, depth=0):
